@@ -9,7 +9,9 @@
    list still to be processed, the output produced, and the explicit N [buflen] of the C.
    No proofs in this file. *)
 From Coq Require Import NArith List Arith Bool.
-From LCP Require Import Base.CheckedMem Crypto.AesSpec Accel.AesNi.
+From LCP Require Import Base.CheckedMem.
+From LCP Require Import Crypto.AesSpec.
+From LCP Require Import Accel.AesNi.
 Import ListNotations.
 Local Open Scope N_scope.
 Local Open Scope res_scope.
